@@ -2663,7 +2663,10 @@ class VM:
 
         # For named function expressions, bind the function name to itself
         # This allows recursive calls like: var f = function fact(n) { return fact(n-1); }
-        if compiled.name and compiled.name in compiled.locals:
+        if (
+            getattr(compiled, "binds_own_name", False)
+            and compiled.name in compiled.locals
+        ):
             name_slot = compiled.locals.index(compiled.name)
             if name_slot >= len(compiled.params) + 1:  # After params and arguments
                 locals_list[name_slot] = func
